@@ -649,9 +649,18 @@ var hangs int
 
 const maxHangs = 2
 
+// livelocks: threads abandoned because, running alone, they kept yielding beyond the step budget without ever
+// returning (their goroutines stay parked for good): after maxLivelocks the remaining lock-step scenarios are skipped
+var livelocks int
+
+const maxLivelocks = 25
+
 func runConcX(proto, k int, pre []string, scripts [][]string, sched []int, choose func(ls *lockstep, enabled []int) int) (answer string, full []int, verdict string, ls *lockstep) {
 	if hangs >= maxHangs {
 		return "skipped-after-hangs", sched, "ok", nil
+	}
+	if livelocks >= maxLivelocks {
+		return "skipped-after-livelocks", sched, "ok", nil
 	}
 	g := gocql.VerifStreamsNew(proto)
 	active = nil
@@ -741,6 +750,7 @@ func runConcX(proto, k int, pre []string, scripts [][]string, sched []int, choos
 			if n >= budget(t) {
 				// running alone the goroutine keeps yielding without ever returning: abandoned (it stays parked)
 				obs = append(obs, strconv.Itoa(t)+":livelock")
+				livelocks++
 				ls.done[t] = true
 				ls.unquiet = true
 				break
@@ -1046,7 +1056,7 @@ func genSeq(r *vh.Rng, out *vh.Out) {
 	} else {
 		cls += "/128"
 	}
-	out.Case(op, exec(op), cls, true)
+	emitCase(out, op, exec(op), cls, true)
 }
 
 // one in bigSmonOneIn 32768-id smon scenarios is kept (a complete fill costs the model > 1 s), at most
@@ -1205,7 +1215,7 @@ func genSmon(r *vh.Rng, out *vh.Out) {
 		cls += "/128"
 	}
 	ans := exec(op)
-	out.Case(op, ans, cls, true)
+	emitCase(out, op, ans, cls, true)
 	out.Dist["smon-verdict/"+strings.SplitN(ans, ":", 2)[0]]++
 }
 
@@ -1428,9 +1438,9 @@ func emitConcX(out *vh.Out, proto, k int, pre []string, scripts [][]string, sche
 	}
 	ans, full, verdict, ls := runConcX(proto, k, pre, scripts, sched, choose)
 	op := concLine(proto, k, pre, scripts, full)
-	out.Case(op, ans, cls, true)
+	emitCase(out, op, ans, cls, true)
 	if alwaysMon {
-		out.Case("mon "+op, verdict, "mon/"+strings.SplitN(verdict, ":", 2)[0], true)
+		emitCase(out, "mon "+op, verdict, "mon/"+strings.SplitN(verdict, ":", 2)[0], true)
 	} else {
 		monCase(out, op, verdict)
 	}
@@ -1752,11 +1762,11 @@ func offsetScenario(out *vh.Out, r *vh.Rng, proto int, pre []string, tok string,
 	}
 	op := fmt.Sprintf("smon %d %s", proto, strings.Join(ops, " "))
 	ans := exec(op)
-	out.Case(op, ans, "smon/"+cls, true)
+	emitCase(out, op, ans, "smon/"+cls, true)
 	out.Dist["smon-verdict/"+strings.SplitN(ans, ":", 2)[0]]++
 	if withSeq {
 		op = fmt.Sprintf("seq %d %s s", proto, strings.Join(ops, " "))
-		out.Case(op, exec(op), "seq/"+cls, true)
+		emitCase(out, op, exec(op), "seq/"+cls, true)
 	}
 }
 
@@ -1833,6 +1843,35 @@ func genOffset(r *vh.Rng, out *vh.Out) {
 
 var monTick int
 
+// priority: spec-backed lines on which a property monitor fired. `check` looks at the first 50 disagreements
+// only; when the code under test also changed its yield pattern, hundreds of model-vs-code differences of
+// `conc` lines come first. These lines are therefore ALSO put at the head of ops.txt / impl.txt at the end of the run.
+var priority [][2]string
+
+func emitCase(out *vh.Out, op, ans, cls string, nontrivial bool) {
+	out.Case(op, ans, cls, nontrivial)
+	if strings.HasPrefix(ans, "violated") && (strings.HasPrefix(op, "mon ") || strings.HasPrefix(op, "smon ")) && len(priority) < 40 {
+		priority = append(priority, [2]string{op, ans})
+	}
+}
+
+func prependPriority(dir string) {
+	if len(priority) == 0 {
+		return
+	}
+	for i, name := range []string{"/ops.txt", "/impl.txt"} {
+		old, err := os.ReadFile(dir + name)
+		if err != nil {
+			return
+		}
+		var sb strings.Builder
+		for _, p := range priority {
+			sb.WriteString(p[i] + "\n")
+		}
+		os.WriteFile(dir+name, append([]byte(sb.String()), old...), 0o644)
+	}
+}
+
 // monCase emits the spec-backed form of a lock-step scenario (`mon conc …` → ok | violated:…):
 // always when a monitor fired, otherwise for one scenario in eight.
 func monCase(out *vh.Out, concOp string, verdict string) {
@@ -1842,7 +1881,7 @@ func monCase(out *vh.Out, concOp string, verdict string) {
 			return
 		}
 	}
-	out.Case("mon "+concOp, verdict, "mon/"+strings.SplitN(verdict, ":", 2)[0], true)
+	emitCase(out, "mon "+concOp, verdict, "mon/"+strings.SplitN(verdict, ":", 2)[0], true)
 }
 
 // enumerate explores schedules of the scenario by stateless DFS (re-execution). Order of the
@@ -1894,7 +1933,10 @@ func enumerate(out *vh.Out, proto, k int, pre []string, scripts [][]string, maxP
 			return t
 		}
 		ans, full, verdict := runConc(proto, k, pre, scripts, nil, choose)
-		out.Case(concLine(proto, k, pre, scripts, full), ans, cls, true)
+		if strings.HasPrefix(ans, "skipped-after-") {
+			return count
+		}
+		emitCase(out, concLine(proto, k, pre, scripts, full), ans, cls, true)
 		monCase(out, concLine(proto, k, pre, scripts, full), verdict)
 		count++
 		// next schedule: deepest decision with an untried alternative
@@ -1959,7 +2001,7 @@ func exhaustive(r *vh.Rng, out *vh.Out) {
 	for x := 1; x < 128; x++ {
 		for y := x + 1; y < 128; y++ {
 			op := fmt.Sprintf("smon 2 G127 c%d c%d g g g a", y, x)
-			out.Case(op, exec(op), "smon/two-holes/128", true)
+			emitCase(out, op, exec(op), "smon/two-holes/128", true)
 		}
 	}
 	_ = r
@@ -2011,7 +2053,7 @@ func main() {
 		"seq 2 c128 a",
 		"seq 2 c127 c64 c63 a s",
 	} {
-		out.Case(op, exec(op), "seq/fixed", true)
+		emitCase(out, op, exec(op), "seq/fixed", true)
 	}
 	// fixed lock-step scenarios: Available() observed while a Clear sits between its CAS and its
 	// decrement (transiently -1, theorem C08_cex_available_transient); last free id of a word raced for
@@ -2022,7 +2064,7 @@ func main() {
 		"conc 2 2 P G127 T c64 g T g g S 010101010101010101010101",
 		"conc 4 2 P G40 T g r T g r S 0101010101010101",
 	} {
-		out.Case(op, exec(op), "conc/fixed", true)
+		emitCase(out, op, exec(op), "conc/fixed", true)
 	}
 	// fixed sequential spec-monitor scenarios, both capacities: fill completely, release out of order (holes below
 	// and above the number of ids in use of a word, first / last word, id 1, id cap-1), refill completely, fail
@@ -2033,12 +2075,12 @@ func main() {
 		"smon 4 G32767 g a c70 c1 c32767 c32704 c32703 c16384 c63 c64 a G7 g a c9 c9 c40000 g g",
 		"smon 2 g c0 g a",
 	} {
-		out.Case(op, exec(op), "smon/fixed", true)
+		emitCase(out, op, exec(op), "smon/fixed", true)
 	}
 	// every single hole of a full 128-id generator: release x, GetStream must succeed, the next one must fail
 	for x := 1; x < 128; x++ {
 		op := fmt.Sprintf("smon 2 G127 c%d g g a", x)
-		out.Case(op, exec(op), "smon/single-hole/128", true)
+		emitCase(out, op, exec(op), "smon/single-hole/128", true)
 	}
 	// the same on ONE full 32768-id generator, for every position of the second word and ids at the borders
 	{
@@ -2052,7 +2094,7 @@ func main() {
 			toks = append(toks, fmt.Sprintf("c%d", x), "g", "g")
 		}
 		op := "smon 3 " + strings.Join(toks, " ")
-		out.Case(op, exec(op), "smon/single-hole/32768", true)
+		emitCase(out, op, exec(op), "smon/single-hole/32768", true)
 	}
 	// fixed lock-step scenarios outside the client protocol: racing double release of one id by 2 and 3
 	// goroutines; double release racing the re-acquisition of the id (the excluded case 2: the unchanged code
@@ -2065,8 +2107,8 @@ func main() {
 	} {
 		op = strings.Replace(op, "P - T", "P T", 1)
 		ans, _, verdict := runConc(parseConcMust(op))
-		out.Case(op, ans, "conc/fixed", true)
-		out.Case("mon "+op, verdict, "mon/fixed", true)
+		emitCase(out, op, ans, "conc/fixed", true)
+		emitCase(out, "mon "+op, verdict, "mon/fixed", true)
 	}
 	fixedWindows(out)
 	fixedOffsets(out)
@@ -2096,4 +2138,5 @@ func main() {
 		exhaustive(r, out)
 	}
 	out.Close(nil)
+	prependPriority(path)
 }
